@@ -82,6 +82,7 @@ func (c *Chain) Dump() []string {
 	add("SUBNEXT %d", c.App.SubaccountKeeper.Peek(ctx))
 	sp := c.App.SubaccountKeeper.GetParams(ctx)
 	add("SUBPRM %s %s", b2s(sp.WagerEnabled), b2s(sp.DepositEnabled))
+	add("BFEEPRM %s", intS(c.App.BetKeeper.GetParams(ctx).Constraints.Fee))
 	if kv, found := c.App.OVMKeeper.GetKeyVault(ctx); found {
 		var ks []string
 		for _, k := range kv.PublicKeys {
